@@ -6,6 +6,8 @@ from . import parts
 def run(tier):
     ck = common.Check('C15', tier)
     res = parts.run_parts(ck, tier, ir_parts=('ir_iter',))
+    from .. import irrules
+    irrules.run_canaries(ck, {'ir_iter': [('R15.1', 'canary_double_deref')]})
     r = res.get('ir_iter', [])
     ck.floor('functions receiving the opaque input iterator', sum(x['res']['functions'] for x in r), 80 if tier == 'quick' else 800)
     ck.floor('iterator operations interpreted', sum(x['res']['iterator_events'] for x in r), 5000 if tier == 'quick' else 50000)
